@@ -149,6 +149,19 @@ def schedule_monitor(prefix="sched"):
             # (tools.trim_weights renormalises its argument in place, so a last-ulp difference is legitimate)
             if w is not None and (win.shape != w.shape or not np.allclose(win, w, rtol=1e-12, atol=1e-300)):
                 p.violate(f"{prefix}:coherence:{ev.step}-weights", f"iteration {ev.iter}: weights seen by {ev.step} differ from the ones reweighting returned", iter=ev.iter)
+        elif ev.step == "mutate":
+            # the kernel must be run at the iteration's temperature, on the resampled set, with the configured boundaries
+            from .pipeline import BOUNDARY
+            per, ref = BOUNDARY[cfg["boundary"]]
+            for kc in ev.info.get("kernel_calls", []):
+                if float(kc["beta"]) != float(st._current["beta"]):
+                    p.violate(f"{prefix}:coherence:kernel-beta", f"iteration {ev.iter}: the mutation kernel was run at beta={kc['beta']!r} but the iteration's temperature is {st._current['beta']!r}", iter=ev.iter)
+                if kc.get("sample") != cfg["sample"]:
+                    p.violate(f"{prefix}:coherence:kernel-kind", f"iteration {ev.iter}: kernel '{kc.get('sample')}' used, configuration says '{cfg['sample']}'", iter=ev.iter)
+                kp = None if kc.get("periodic") is None else [int(i) for i in kc["periodic"]]
+                kr = None if kc.get("reflective") is None else [int(i) for i in kc["reflective"]]
+                if (kp or None) != (per or None) or (kr or None) != (ref or None):
+                    p.violate(f"{prefix}:coherence:kernel-boundaries", f"iteration {ev.iter}: kernel got periodic={kp} reflective={kr}, configuration says {per}/{ref}", iter=ev.iter)
         elif ev.step == "commit":
             hb = [float(b) for b in st._history["beta"]]
             if any(b2 < b1 for b1, b2 in zip(hb[:-1], hb[1:])):
